@@ -134,6 +134,8 @@ def run_traces(ctx, pid, profile, n, extra_args=()):
             ctx.findings.append(f)
         else:
             other[f["key"]] = other.get(f["key"], 0) + f.get("count", 1)
+            if f.get("replay") and os.path.exists(f["replay"]):     # not this property's artefact
+                os.remove(f["replay"])
     if other:
         ctx.notes.append("traces cut short by clauses of other properties (reported by their own checks): %s" % json.dumps(other, sort_keys=True))
     return traces, stats
